@@ -53,7 +53,7 @@ class IntList(MetaHandlerGenerator):
     """
 
     def __init__(self, elements):
-        self.elements = elements
+        self.elements = list(elements)  # a copy: the caller may go on using its list
 
     def generate(
         self,
